@@ -247,9 +247,16 @@ def make_visit(prog, calls):
     return visit
 
 
-def make_query(q):
+class QueryBoom(Exception):
+    pass
+
+
+def make_query(q, qraise=None):
     def query(path, key, value):
-        return eval_pred(q, [key_tok(x) for x in path], key_tok(key), shallow(value))
+        p, k, s = [key_tok(x) for x in path], key_tok(key), shallow(value)
+        if qraise is not None and eval_pred(qraise, p, k, s):
+            raise QueryBoom()
+        return eval_pred(q, p, k, s)
     return query
 
 
@@ -284,10 +291,14 @@ def run_impl(case):
     obs["in_after"] = Ser(ids=s_in.ids).ser(root)
     entries = []
     try:
-        found = research(root, make_query(case["query"]))
+        kw = {} if case.get("qreraise") is None else {"reraise": case["qreraise"]}
+        found = research(root, make_query(case["query"], case.get("qraise")), **kw)
     except TypeError:
         found = None
         obs["research"] = ["raise", "TypeError"]
+    except QueryBoom:
+        found = None
+        obs["research"] = ["raise", "QueryBoom"]
     if found is not None:
         for path, value in found:
             try:
@@ -379,7 +390,7 @@ def coref(r):
     return "ROther"
 
 
-EXN = {"TypeError": "TypeError", "RecursionError": "(OtherExn 9)", "VisitBoom": "VisitError"}
+EXN = {"TypeError": "TypeError", "RecursionError": "(OtherExn 9)", "VisitBoom": "VisitError", "QueryBoom": "QueryError"}
 
 
 def to_coq(case, obs):
@@ -397,8 +408,10 @@ def to_coq(case, obs):
     probes = "[" + "; ".join(
         "(%s, %s, %s)" % (cpath(p), "Ok %s" % coref(g[1]) if g[0] == "ok" else "Raise KeyError",
                           "true" if d else "false") for p, g, d in obs.get("probes", [])) + "]"
-    return "mkCase %s %s %s %s %s %s %s %s %s %s %s" % (
-        cobj(obs["in"]), visit, "false" if case.get("reraise") is False else "true", out, calls, cobj(obs["in_after"]), cpred(case["query"]), ents,
+    qr = "None" if case.get("qraise") is None else "(Some %s)" % cpred(case["qraise"])
+    return "mkCase %s %s %s %s %s %s %s %s %s %s %s %s %s" % (
+        cobj(obs["in"]), visit, "false" if case.get("reraise") is False else "true", out,
+        calls, cobj(obs["in_after"]), cpred(case["query"]), qr, "true" if case.get("qreraise") else "false", ents,
         cobj(obs["in_final"]), probes, dc)
 
 
@@ -636,6 +649,8 @@ def generate(rng, tier, n):
                     break
         yield {"nodes": nodes, "root": root, "visit": gen_prog(rng), "reraise": rng.choice([None, None, True, False, False]),
                "query": ["true"] if rng.random() < 0.35 else gen_pred(rng), "dc": rng.random() < 0.3,
+               "qraise": gen_pred(rng, 1) if rng.random() < 0.2 else None,
+               "qreraise": rng.choice([None, None, False, True]),
                "probes": gen_probes(rng, nodes, root, rng.randint(0, 4))}
 
 
